@@ -533,3 +533,87 @@ def comprehension_over_base(cfg: CFG, at: int, comp: ast.AST, elem: str = "_e"):
     else:
         out["elt"] = dict_lookups(subst(comp.elt, mapping))
     return base, out
+
+
+def in_caller_terms(callee: FuncInfo, call: ast.Call, expr: ast.AST, at: Optional[int] = None) -> Optional[ast.AST]:
+    """An expression of `callee` (resolved through its temporaries at CFG node `at`) rewritten over the caller's vocabulary: every parameter is replaced
+    by the argument `call` binds to it.  None when a parameter it reads is not bound by the call (defaults are used when present)."""
+    import copy
+    from .cfg import cfg_of
+    e = resolved(cfg_of(callee), at, expr) if at is not None else copy.deepcopy(expr)
+    params = [p for p in callee.params if not (callee.cls and p in ("self", "cls"))]
+    binding = {}
+    for p, a in zip(params, call.args):
+        if isinstance(a, ast.Starred):
+            return None
+        binding[p] = a
+    for k in call.keywords:
+        if k.arg:
+            binding[k.arg] = k.value
+    a_ = callee.node.args
+    pos = [x.arg for x in a_.posonlyargs + a_.args]
+    for name, d in zip(pos[len(pos) - len(a_.defaults):], a_.defaults):
+        binding.setdefault(name, d)
+    missing = []
+
+    class S(ast.NodeTransformer):
+        def visit_Name(self, n):
+            if isinstance(n.ctx, ast.Load) and n.id in params:
+                if n.id in binding:
+                    return copy.deepcopy(binding[n.id])
+                missing.append(n.id)
+            return n
+    out = S().visit(e)
+    return None if missing else out
+
+
+def flatten_generator(cfg: CFG, at: int, gen: ast.AST, depth: int = 4) -> ast.AST:
+    """A generator / list comprehension whose source is itself a (named or inline) single-`for` generator is composed into one comprehension over the
+    innermost source: `(f(c) for c in (g(d) for d in X if p(d)) if q(c))` == `(f(g(d)) for d in X if p(d) if q(g(d)))`.  A named source that is not a
+    comprehension is replaced by its single definition.  Lazy pipelines written stage by stage read like the one-expression original (a copy)."""
+    import copy
+    if isinstance(gen, ast.Name):
+        ds = cfg.reaching(at, gen.id)
+        if len(ds) == 1 and ds[0].kind == "assign" and isinstance(ds[0].value, (ast.GeneratorExp, ast.ListComp)):
+            gen = ds[0].value
+    if not isinstance(gen, (ast.GeneratorExp, ast.ListComp)):
+        return gen
+    gen = copy.deepcopy(gen)
+    for _ in range(depth):
+        if len(gen.generators) != 1 or not isinstance(gen.generators[0].target, ast.Name):
+            break
+        g0 = gen.generators[0]
+        src = g0.iter
+        if isinstance(src, ast.Name):
+            ds = cfg.reaching(at, src.id)
+            if len(ds) == 1 and ds[0].kind == "assign" and ds[0].value is not None and not isinstance(ds[0].value, ast.Name):
+                src = copy.deepcopy(ds[0].value)
+                at = ds[0].node
+                g0.iter = src
+        if isinstance(src, (ast.GeneratorExp, ast.ListComp)) and len(src.generators) == 1 and isinstance(src.generators[0].target, ast.Name):
+            inner = src.generators[0]
+            outer_var = g0.target.id
+
+            class S(ast.NodeTransformer):
+                def visit_Name(self, n):
+                    return copy.deepcopy(src.elt) if n.id == outer_var and isinstance(n.ctx, ast.Load) else n
+            new_elt = S().visit(gen.elt)
+            new_ifs = list(inner.ifs) + [S().visit(c) for c in g0.ifs]
+            gen.elt = new_elt
+            gen.generators = [ast.comprehension(target=inner.target, iter=inner.iter, ifs=new_ifs, is_async=0)]
+            continue
+        break
+    return gen
+
+
+def deref(cfg: CFG, at: int, e: ast.AST, depth: int = 4) -> ast.AST:
+    """If `e` is a plain name with exactly one reaching plain definition, that definition's value (followed through chains of such names); else `e` itself.
+    Unlike resolved() nothing INSIDE the expression is touched."""
+    while depth > 0 and isinstance(e, ast.Name):
+        ds = cfg.reaching(at, e.id)
+        if len(ds) == 1 and ds[0].kind == "assign" and ds[0].value is not None:
+            e, at = ds[0].value, ds[0].node
+            depth -= 1
+        else:
+            break
+    return e
